@@ -89,6 +89,9 @@ type Case struct {
 	ToolOpt      bool      `json:"tool_opt,omitempty"`    // call option react.WithToolOptions(marker): every tool must receive it
 	Future       bool      `json:"future,omitempty"`      // call option react.WithMessageFuture: the messages handed out are observed
 	Exported     bool      `json:"exported,omitempty"`    // additionally run the agent as a node of a parent graph (Agent.ExportGraph)
+	ToolList     []ToolDef `json:"tool_list,omitempty"`   // call option compose.WithToolList through agent.WithComposeOptions: replaces the tools of the tools node for this call
+	Host         *HostCase `json:"host,omitempty"`        // a host multi-agent case (host.go); only input, checker, model_api, index_in_whole, pipe_stream, exported are used besides
+	SetupFault   string    `json:"setup_fault,omitempty"` // nomodel | infofail | bindfail : NewAgent must return an error (no run)
 	ModelAPI     string    `json:"model_api"` // chat | toolcalling
 	IndexInWhole bool      `json:"index_in_whole,omitempty"`
 	PipeStream   bool      `json:"pipe_stream,omitempty"` // the model streams through a Pipe (else array-backed)
@@ -103,6 +106,7 @@ type exec struct {
 	Round int
 	Call  TCall
 	Opt   bool // the tool received the marker option of react.WithToolOptions
+	Alt   bool // the executing tool instance belongs to the call-time tool list
 }
 
 type toolOpts struct{ marker string }
@@ -172,6 +176,15 @@ type toolErr struct{}
 
 func (e *toolErr) Error() string { return "TOOLERR#" }
 
+type failingInfoTool struct{}
+
+func (failingInfoTool) Info(context.Context) (*schema.ToolInfo, error) {
+	return nil, errors.New("INFOFAIL#")
+}
+func (failingInfoTool) InvokableRun(context.Context, string, ...tool.Option) (string, error) {
+	return "", errors.New("unreachable")
+}
+
 type fakeModel struct {
 	c     *Case
 	bound []string
@@ -180,6 +193,9 @@ type fakeModel struct {
 }
 
 func (m *fakeModel) BindTools(ts []*schema.ToolInfo) error {
+	if m.c.SetupFault == "bindfail" {
+		return errors.New("BINDFAIL#")
+	}
 	m.bound = nil
 	for _, t := range ts {
 		m.bound = append(m.bound, t.Name)
@@ -193,7 +209,9 @@ func (m *fakeModel) BindTools(ts []*schema.ToolInfo) error {
 
 func (m *fakeModel) WithTools(ts []*schema.ToolInfo) (model.ToolCallingChatModel, error) {
 	n := &fakeModel{c: m.c, binds: m.binds, root: m}
-	_ = n.BindTools(ts)
+	if err := n.BindTools(ts); err != nil {
+		return nil, err
+	}
 	return n, nil
 }
 
@@ -273,6 +291,7 @@ func (m *fakeModel) Stream(ctx context.Context, input []*schema.Message, _ ...mo
 type recTool struct {
 	c    *Case
 	name string
+	alt  bool // an instance of the call-time tool list (compose.WithToolList)
 }
 
 func (t *recTool) Info(context.Context) (*schema.ToolInfo, error) {
@@ -286,7 +305,7 @@ func (t *recTool) record(ctx context.Context, name, args string, opts ...tool.Op
 	}
 	o := tool.GetImplSpecificOptions(&toolOpts{}, opts...)
 	rc.mu.Lock()
-	rc.execs = append(rc.execs, exec{len(rc.calls) - 1, TCall{compose.GetToolCallID(ctx), name, args}, o.marker == toolMarker})
+	rc.execs = append(rc.execs, exec{len(rc.calls) - 1, TCall{compose.GetToolCallID(ctx), name, args}, o.marker == toolMarker, t.alt})
 	rc.mu.Unlock()
 	for _, f := range t.c.FailArgs {
 		if f == args {
@@ -369,10 +388,10 @@ func windowModifier(_ context.Context, in []*schema.Message) []*schema.Message {
 	return in
 }
 
-func buildAgent(c *Case) (*react.Agent, error) {
+func mkTools(c *Case, defs []ToolDef, alt bool) []tool.BaseTool {
 	var tools []tool.BaseTool
-	for _, d := range c.Tools {
-		base := recTool{c, d.Name}
+	for _, d := range defs {
+		base := recTool{c, d.Name, alt}
 		switch d.Kind {
 		case "inv":
 			tools = append(tools, &invTool{base})
@@ -382,10 +401,18 @@ func buildAgent(c *Case) (*react.Agent, error) {
 			tools = append(tools, &bothTool{base})
 		}
 	}
+	return tools
+}
+
+func buildAgent(c *Case) (*react.Agent, error) {
+	tools := mkTools(c, c.Tools, false)
+	if c.SetupFault == "infofail" {
+		tools = append(tools, failingInfoTool{})
+	}
 	cfg := &react.AgentConfig{MaxStep: c.MaxStep}
 	cfg.ToolsConfig.Tools = tools
 	if c.Handler {
-		ht := &recTool{c, ""}
+		ht := &recTool{c, "", false}
 		cfg.ToolsConfig.UnknownToolsHandler = func(ctx context.Context, name, input string) (string, error) {
 			ht.record(ctx, name, input)
 			return "unk:" + name + ":" + input, nil
@@ -409,9 +436,11 @@ func buildAgent(c *Case) (*react.Agent, error) {
 		cfg.MessageModifier = react.NewPersonaModifier(c.Persona)
 	}
 	fm := &fakeModel{c: c, binds: new(int)}
-	if c.ModelAPI == "toolcalling" {
+	switch {
+	case c.SetupFault == "nomodel":
+	case c.ModelAPI == "toolcalling":
 		cfg.ToolCallingModel = fm
-	} else {
+	default:
 		cfg.Model = fm
 	}
 	ag, err := react.NewAgent(context.Background(), cfg)
@@ -424,7 +453,7 @@ func buildAgent(c *Case) (*react.Agent, error) {
 		want = append(want, d.Name)
 	}
 	if *fm.binds != 1 || !reflect.DeepEqual(fm.bound, want) {
-		return nil, fmt.Errorf("BINDTOOLS: the model was bound %d times, to the tools %v; configured %v", *fm.binds, fm.bound, want)
+		return ag, fmt.Errorf("BINDTOOLS: the model was bound %d times, to the tools %v; configured %v", *fm.binds, fm.bound, want)
 	}
 	return ag, nil
 }
@@ -470,6 +499,7 @@ type RunObs struct {
 	Mutated  bool      `json:"mutated,omitempty"`      // a history slice handed to the model changed afterwards
 	InMut    bool      `json:"input_mutated,omitempty"` // the caller's input slice / messages changed
 	OptLost  int       `json:"opt_lost,omitempty"`     // tool executions that did not receive the WithToolOptions marker
+	WrongInst int      `json:"wrong_instance,omitempty"` // tool executions on an instance of the wrong tool list (configured vs call-time WithToolList)
 	HasEmits bool      `json:"has_emits,omitempty"`    // the run used WithMessageFuture
 	Emits    []Msg     `json:"emits,omitempty"`        // messages handed out by the future (tool messages of a round in call order)
 	FutEnd   string    `json:"future_end,omitempty"`   // closed | error | hang
@@ -484,9 +514,23 @@ type target struct {
 
 func agentTarget(ag *react.Agent) *target { return &target{gen: ag.Generate, str: ag.Stream} }
 
-func exportedTarget(ag *react.Agent) (*target, error) {
+type parentState struct{ seen int }
+
+// stateful: the parent graph has a local state of its own (another type than the agent's) and a
+// state pre-handler on the agent node — the agent's handlers must keep finding the agent's state
+func exportedTarget(ag *react.Agent, stateful bool) (*target, error) {
 	g, gopts := ag.ExportGraph()
-	parent := compose.NewGraph[[]*schema.Message, *schema.Message]()
+	var parent *compose.Graph[[]*schema.Message, *schema.Message]
+	if stateful {
+		parent = compose.NewGraph[[]*schema.Message, *schema.Message](compose.WithGenLocalState(func(context.Context) *parentState { return &parentState{} }))
+		gopts = append(append([]compose.GraphAddNodeOpt{}, gopts...), compose.WithStatePreHandler(
+			func(_ context.Context, in []*schema.Message, st *parentState) ([]*schema.Message, error) {
+				st.seen += len(in)
+				return in, nil
+			}))
+	} else {
+		parent = compose.NewGraph[[]*schema.Message, *schema.Message]()
+	}
 	if err := parent.AddGraphNode("agent", g, gopts...); err != nil {
 		return nil, err
 	}
@@ -546,6 +590,9 @@ func runAgent(tg *target, c *Case, mode string) (o RunObs) {
 		}
 		if c.ToolOpt {
 			opts = append(opts, react.WithToolOptions(tool.WrapImplSpecificOptFn(func(t *toolOpts) { t.marker = toolMarker })))
+		}
+		if len(c.ToolList) > 0 {
+			opts = append(opts, agent.WithComposeOptions(compose.WithToolsNodeOption(compose.WithToolList(mkTools(c, c.ToolList, true)...))))
 		}
 		if c.Future {
 			var fo agent.AgentOption
@@ -685,8 +732,12 @@ func runAgent(tg *target, c *Case, mode string) (o RunObs) {
 			rounds = append(rounds, e.Round)
 		}
 		byRound[e.Round] = append(byRound[e.Round], e.Call)
-		if c.ToolOpt && !tg.exported && !e.Opt && c.kindOf(e.Call.Name) != "" {
+		isTool := kindIn(c.toolsOf(!tg.exported), e.Call.Name) != ""
+		if c.ToolOpt && !tg.exported && !e.Opt && isTool {
 			o.OptLost++
+		}
+		if isTool && e.Alt != (!tg.exported && len(c.ToolList) > 0) {
+			o.WrongInst++
 		}
 	}
 	sort.Ints(rounds)
@@ -749,14 +800,24 @@ func defaultChecker(chunks []Chunk) bool {
 	return false
 }
 
-func (c *Case) kindOf(name string) string {
+func (c *Case) kindOf(name string) string { return kindIn(c.Tools, name) }
+
+func kindIn(defs []ToolDef, name string) string {
 	k := ""
-	for _, t := range c.Tools {
+	for _, t := range defs {
 		if t.Name == name {
 			k = t.Kind
 		}
 	}
 	return k
+}
+
+// the tools the tools node works with in a run: the call-time list replaces the configured one
+func (c *Case) toolsOf(callOpts bool) []ToolDef {
+	if callOpts && len(c.ToolList) > 0 {
+		return c.ToolList
+	}
+	return c.Tools
 }
 
 func (c *Case) inRD(name string) bool {
@@ -789,6 +850,7 @@ func (c *Case) specRunWith(stopAt int, callOpts bool) (o RunObs) {
 		budget = c.RuntimeMax
 	}
 	o.HasEmits = callOpts && c.Future
+	defs := c.toolsOf(callOpts)
 	hist := append([]Msg{}, c.Input...)
 	fail := func(cls int) RunObs { o.Out = Out{Class: "err", Err: cls}; return o }
 	for k := 0; ; k++ {
@@ -829,7 +891,7 @@ func (c *Case) specRunWith(stopAt int, callOpts bool) (o RunObs) {
 		// tools: unknown name without handler => error before anything runs; otherwise all run
 		known := true
 		for _, cl := range st.Calls {
-			if c.kindOf(cl.Name) == "" && !c.Handler {
+			if kindIn(defs, cl.Name) == "" && !c.Handler {
 				known = false
 			}
 		}
@@ -841,12 +903,12 @@ func (c *Case) specRunWith(stopAt int, callOpts bool) (o RunObs) {
 		failed := false
 		for _, cl := range st.Calls {
 			for _, f := range c.FailArgs {
-				if f == cl.Args && c.kindOf(cl.Name) != "" {
+				if f == cl.Args && kindIn(defs, cl.Name) != "" {
 					failed = true
 				}
 			}
 			out := cl.Name + "(" + cl.Args + ")"
-			if c.kindOf(cl.Name) == "" {
+			if kindIn(defs, cl.Name) == "" {
 				out = "unk:" + cl.Name + ":" + cl.Args
 			}
 			results = append(results, Msg{Role: 3, Content: out, TCID: cl.ID})
@@ -857,7 +919,7 @@ func (c *Case) specRunWith(stopAt int, callOpts bool) (o RunObs) {
 		if o.HasEmits {
 			// only tool components have callbacks: an answer of the UnknownToolsHandler is not handed out
 			for i, cl := range st.Calls {
-				if c.kindOf(cl.Name) != "" {
+				if kindIn(defs, cl.Name) != "" {
 					o.Emits = append(o.Emits, results[i])
 				}
 			}
@@ -978,6 +1040,9 @@ func (c *Case) oracle(gen, str *RunObs, conc []RunObs, exp []RunObs) (string, st
 		}
 		if o.InMut {
 			return o.Mode + ": the caller's input messages were modified", "caller-input-mutated"
+		}
+		if o.WrongInst > 0 {
+			return fmt.Sprintf("%s: %d tool executions ran on the wrong tool list (configured tools vs the call-time compose.WithToolList)", o.Mode, o.WrongInst), "tool-list-wrong-instance"
 		}
 		if o.OptLost > 0 {
 			return fmt.Sprintf("%s: %d tool executions did not receive the option given with react.WithToolOptions", o.Mode, o.OptLost), "tool-option-lost"
@@ -1120,9 +1185,16 @@ func (o *RunObs) coq() string {
 }
 
 func (c *Case) coq(runs []string) string {
-	tools := make([]string, len(c.Tools))
-	for i, t := range c.Tools {
-		tools[i] = lib.CoqApp("T", S(t.Name), map[string]string{"inv": "KInv", "str": "KStr", "both": "KBoth"}[t.Kind])
+	tdefs := func(defs []ToolDef) string {
+		items := make([]string, len(defs))
+		for i, t := range defs {
+			items[i] = lib.CoqApp("T", S(t.Name), map[string]string{"inv": "KInv", "str": "KStr", "both": "KBoth"}[t.Kind])
+		}
+		return lib.CoqList(items)
+	}
+	toolList := "None"
+	if len(c.ToolList) > 0 {
+		toolList = lib.CoqSome(tdefs(c.ToolList))
 	}
 	fa := make([]string, len(c.FailArgs))
 	for i, f := range c.FailArgs {
@@ -1137,7 +1209,9 @@ func (c *Case) coq(runs []string) string {
 		persona = lib.CoqSome(S(c.Persona))
 	}
 	script := make([]string, len(c.Script))
+	cbt := make([]string, len(c.Script))
 	for i, st := range c.Script {
+		cbt[i] = lib.CoqBool(!st.Fail && contentChunkBeforeToolCallChunk(st.Chunks))
 		if st.Fail {
 			script[i] = "SFail"
 			continue
@@ -1159,9 +1233,9 @@ func (c *Case) coq(runs []string) string {
 	case "window":
 		mod = "2"
 	}
-	return lib.CoqApp("mkCase", lib.CoqList(tools), lib.CoqList(fa), lib.CoqBool(c.Handler), lib.CoqList(rd),
+	return lib.CoqApp("mkCase", tdefs(c.Tools), toolList, lib.CoqList(fa), lib.CoqBool(c.Handler), lib.CoqList(rd),
 		lib.CoqNat(c.MaxStep), lib.CoqNat(c.RuntimeMax), lib.CoqBool(c.Checker != "exact"), persona, "("+mod+"%N)", coqMsgs(c.Input),
-		lib.CoqList(script), lib.CoqList(runs))
+		lib.CoqList(script), lib.CoqList(cbt), lib.CoqList(runs))
 }
 
 // ---------------------------------------------------------------- generator
@@ -1337,6 +1411,21 @@ func genCase(r *lib.Rng, tier string) *Case {
 	c.ToolOpt = r.Chance(1, 3)
 	c.Future = r.Chance(1, 3)
 	c.Exported = r.Chance(1, 4)
+	if r.Chance(1, 8) { // a call-time tool list: a sub-list, a re-kinded list, or one more tool
+		switch r.Intn(3) {
+		case 0:
+			c.ToolList = append([]ToolDef{}, c.Tools[:r.Range(1, nt)]...)
+		case 1:
+			for _, t := range c.Tools {
+				c.ToolList = append(c.ToolList, ToolDef{t.Name, r.Pick([]string{"inv", "str", "both"})})
+			}
+		default:
+			c.ToolList = append(append([]ToolDef{}, c.Tools...), ToolDef{"nosuchtool", "inv"})
+		}
+	}
+	if r.Chance(1, 40) {
+		c.SetupFault = r.Pick([]string{"nomodel", "infofail", "bindfail"})
+	}
 	return c
 }
 
@@ -1346,19 +1435,33 @@ type engine struct{}
 
 func (engine) ID() string { return "C18" }
 func (engine) CoqHeader() string {
-	return "From Eino Require Import Base.Util Model.Tools Model.React Corr.C18.\n"
+	return "From Eino Require Import Base.Util Model.Tools Model.React Model.Host Corr.C18.\n"
 }
-func (engine) CoqCaseType() string { return "ccase" }
+func (engine) CoqCaseType() string { return "acase" }
 
-func (engine) Generate(r *lib.Rng, tier string, i int) any { return genCase(r, tier) }
+func (engine) Generate(r *lib.Rng, tier string, i int) any {
+	if r.Chance(1, 8) {
+		return genHostCase(r)
+	}
+	return genCase(r, tier)
+}
 
 func (engine) Decode(raw json.RawMessage) (any, error) {
 	c := &Case{Checker: "default", ModelAPI: "chat"}
 	if err := json.Unmarshal(raw, c); err != nil {
 		return nil, err
 	}
+	if c.Host != nil {
+		if len(c.Host.Specs) == 0 || len(c.Input) == 0 {
+			return nil, errors.New("host case without specialists or input")
+		}
+		return c, nil
+	}
 	if len(c.Tools) == 0 {
 		return nil, errors.New("case without tools")
+	}
+	if c.MaxStep < 0 || c.RuntimeMax < 0 {
+		return nil, errors.New("negative step limit: a configuration error outside the property's domain (the run fails with 'max run steps limit must be at least 1')")
 	}
 	return c, nil
 }
@@ -1366,7 +1469,28 @@ func (engine) Decode(raw json.RawMessage) (any, error) {
 func (engine) Run(ci any) lib.Result {
 	c := ci.(*Case)
 	defer markRunning(c)()
+	if c.Host != nil {
+		return runHostCase(c)
+	}
 	res := lib.Result{}
+	if c.SetupFault != "" {
+		// a configuration NewAgent must reject with an error (no panic, no agent)
+		var err error
+		var ag *react.Agent
+		p := lib.Recover(func() { ag, err = buildAgent(c) })
+		res.Tags = []string{"setup-fault:" + c.SetupFault}
+		switch {
+		case p != nil:
+			res.Obs = map[string]string{"setup_fault": c.SetupFault, "panic": short(fmt.Sprint(p))}
+			res.Oracle, res.Sig = "NewAgent panicked on a faulty configuration ("+c.SetupFault+"): "+short(fmt.Sprint(p)), "setup-panic"
+		case err == nil || ag != nil:
+			res.Obs = map[string]string{"setup_fault": c.SetupFault, "err": ""}
+			res.Oracle, res.Sig = "NewAgent accepted a configuration it must reject ("+c.SetupFault+")", "setup-accepted"
+		default:
+			res.Obs = map[string]string{"setup_fault": c.SetupFault, "err": short(err.Error())}
+		}
+		return res
+	}
 	ag, err := buildAgent(c)
 	if err != nil {
 		res.Obs = map[string]string{"setup": err.Error()}
@@ -1378,7 +1502,7 @@ func (engine) Run(ci any) lib.Result {
 	str := runAgent(tg, c, "stream")
 	var exp []RunObs
 	if c.Exported {
-		xt, err := exportedTarget(ag)
+		xt, err := exportedTarget(ag, len(c.Script)%2 == 0)
 		if err != nil {
 			res.Obs = map[string]string{"setup": err.Error()}
 			res.Oracle, res.Sig = "the exported agent graph could not be added to / compiled in a parent graph: "+err.Error(), "setup-exported"
@@ -1416,7 +1540,7 @@ func (engine) Run(ci any) lib.Result {
 				runs = append(runs, x)
 			}
 		}
-		res.CoqTerm = cur.wrap(c.coq(runs))
+		res.CoqTerm = cur.wrap(lib.CoqApp("ReactCase", c.coq(runs)))
 	}
 
 	calls := 0
@@ -1460,7 +1584,11 @@ func (engine) Run(ci any) lib.Result {
 		fmt.Sprintf("tool-rounds:%d", len(gen.Rounds)), "checker:" + c.Checker, "api:" + c.ModelAPI,
 		fmt.Sprintf("rd:%v", len(c.RD) > 0), "maxstep:" + ms, "generate:" + outTag(&gen), "stream:" + outTag(&str),
 		fmt.Sprintf("concurrent:%d", c.Concurrent), fmt.Sprintf("runtime-max:%v", c.RuntimeMax > 0),
-		fmt.Sprintf("tool-opt:%v", c.ToolOpt), fmt.Sprintf("future:%v", c.Future), fmt.Sprintf("exported:%v", c.Exported)}
+		fmt.Sprintf("tool-opt:%v", c.ToolOpt), fmt.Sprintf("future:%v", c.Future), fmt.Sprintf("exported:%v", c.Exported),
+		fmt.Sprintf("call-time-tool-list:%v", len(c.ToolList) > 0)}
+	if c.Exported {
+		res.Tags = append(res.Tags, fmt.Sprintf("exported-parent-stateful:%v", len(c.Script)%2 == 0))
+	}
 	switch {
 	case c.Mod != "":
 		res.Tags = append(res.Tags, "modifier:"+c.Mod+"(in place)")
@@ -1476,6 +1604,107 @@ func (engine) Run(ci any) lib.Result {
 	return res
 }
 
+
+// ---------------------------------------------------------------- shrinking
+
+func cloneCase(c *Case) *Case {
+	b, _ := json.Marshal(c)
+	n := &Case{}
+	_ = json.Unmarshal(b, n)
+	return n
+}
+
+// the chunking of a reply rebuilt after its calls changed: one whole chunk, or - if the
+// original streamed content before the first tool call - the content chunk, then the calls
+func rechunk(st *Step, contentFirst bool) {
+	var frags []Frag
+	for i, cl := range st.Calls {
+		frags = append(frags, Frag{Index: i, ID: cl.ID, Name: cl.Name, Args: cl.Args})
+	}
+	switch {
+	case contentFirst && st.Content != "" && len(frags) > 0:
+		st.Chunks = []Chunk{{Content: st.Content}, {Frags: frags}}
+	default:
+		st.Chunks = []Chunk{{Content: st.Content, Frags: frags}}
+	}
+}
+
+// Shrink: greedy minimisation of a case whose direct oracle fails (same signature): switch the
+// options off, drop scripted replies, calls, chunk structure, original messages.
+func (engine) Shrink(ci any, stillFails func(any) bool) any {
+	cur := cloneCase(ci.(*Case))
+	try := func(mut func(c *Case) bool) bool {
+		cand := cloneCase(cur)
+		if !mut(cand) {
+			return false
+		}
+		if stillFails(cand) {
+			cur = cand
+			return true
+		}
+		return false
+	}
+	for _, f := range []func(c *Case) bool{
+		func(c *Case) bool { ch := c.Concurrent != 0; c.Concurrent = 0; return ch },
+		func(c *Case) bool { ch := c.Exported; c.Exported = false; return ch },
+		func(c *Case) bool { ch := c.Future; c.Future = false; return ch },
+		func(c *Case) bool { ch := c.ToolOpt; c.ToolOpt = false; return ch },
+		func(c *Case) bool { ch := c.RuntimeMax != 0; c.RuntimeMax = 0; return ch },
+		func(c *Case) bool { ch := c.Persona != ""; c.Persona = ""; return ch },
+		func(c *Case) bool { ch := c.Mod != ""; c.Mod = ""; return ch },
+		func(c *Case) bool { ch := c.Handler; c.Handler = false; return ch },
+		func(c *Case) bool { ch := len(c.FailArgs) > 0; c.FailArgs = nil; return ch },
+		func(c *Case) bool { ch := c.PipeStream; c.PipeStream = false; return ch },
+		func(c *Case) bool { ch := c.IndexInWhole; c.IndexInWhole = false; return ch },
+		func(c *Case) bool { ch := len(c.RD) > 0; c.RD = nil; return ch },
+		func(c *Case) bool { ch := c.MaxStep != 0; c.MaxStep = 0; return ch },
+		func(c *Case) bool { ch := len(c.Input) > 1; c.Input = c.Input[len(c.Input)-1:]; return ch },
+	} {
+		try(f)
+	}
+	for changed := true; changed; {
+		changed = false
+		for i := len(cur.Script) - 1; i >= 0; i-- { // drop a scripted reply
+			i := i
+			if try(func(c *Case) bool {
+				if len(c.Script) <= 1 {
+					return false
+				}
+				c.Script = append(c.Script[:i], c.Script[i+1:]...)
+				return true
+			}) {
+				changed = true
+			}
+		}
+		for i := range cur.Script { // drop a call, simplify the chunking
+			for j := len(cur.Script[i].Calls) - 1; j >= 0; j-- {
+				i, j := i, j
+				if try(func(c *Case) bool {
+					st := &c.Script[i]
+					if j >= len(st.Calls) || len(st.Calls) <= 1 {
+						return false
+					}
+					cf := contentChunkBeforeToolCallChunk(st.Chunks)
+					st.Calls = append(st.Calls[:j], st.Calls[j+1:]...)
+					rechunk(st, cf)
+					return true
+				}) {
+					changed = true
+				}
+			}
+			i := i
+			try(func(c *Case) bool {
+				st := &c.Script[i]
+				if st.Fail || len(st.Chunks) <= 2 {
+					return false
+				}
+				rechunk(st, contentChunkBeforeToolCallChunk(st.Chunks))
+				return true
+			})
+		}
+	}
+	return cur
+}
 
 // crash marker: if the implementation kills the process (an unrecovered panic on a goroutine
 // the harness cannot guard, a fatal runtime error), ./check finds fatal.json in the run
